@@ -186,6 +186,10 @@ func runOne(t *testing.T, p *simkit.Prop, c *simkit.Case, idx int, keep bool) *s
 			run.T0 = time.Now()
 			p.Exec(run)
 			run.EndNs = int64(time.Since(run.T0))
+			// Time stops when the bubble's root function returns: let every timeout of
+			// the torn-down system (stream deadlines, dial timeouts, back-offs, grace
+			// periods) expire first, so that only real leaks remain blocked.
+			time.Sleep(3 * time.Minute)
 			h, picks, yields := simkit.SchedStats()
 			run.SchedHash, run.Picks, run.Yields = h, picks, yields
 			// the scheduler stays seeded until every goroutine of the bubble has
